@@ -2,6 +2,8 @@
 # tools/matrix.sh <out-file> <seeded-id>... : for each seeded change, apply it to a scratch worktree and run ALL quick checks
 # against that tree (VERIF_REPO), writing one line per (seeded id, property). Does not touch /repo or /verif/evidence.
 OUT="$1"; shift
+# VERIF_SNAP=<dir>: run the checks from a snapshot copy of /verif (harness under edit does not disturb a long matrix run)
+V="${VERIF_SNAP:-/verif}"
 export GOFLAGS=-mod=mod GOPROXY=off GOSUMDB=off GOTOOLCHAIN=local
 for SID in "$@"; do
   WT=/tmp/wt/mx-$SID
@@ -9,11 +11,11 @@ for SID in "$@"; do
   git -C /repo worktree add -q --detach "$WT" HEAD || continue
   if ! git -C "$WT" apply /verif/seeded/$SID/patch.diff; then echo "$SID APPLY-FAILED" >> "$OUT"; git -C /repo worktree remove --force "$WT"; continue; fi
   for P in ${PROPS:-C01 C02 C03 C04 C05 C06 C07 C08 C09 C10 C11 C12 C13 C14 C15 C16 C17 C18 C19}; do
-    o=$(cd /verif && VERIF_REPO="$WT" VERIF_OUT_DIR=/tmp/wt/mxout-$SID ./check $P --tier ${TIER:-quick} 2>&1)
+    o=$(cd "$V" && VERIF_REPO="$WT" VERIF_OUT_DIR=/tmp/wt/mxout-$SID ./check $P --tier ${TIER:-quick} 2>&1)
     rc=$?
     echo "$SID $P rc=$rc $(echo "$o" | grep -m1 'signature:' | cut -c1-160)" >> "$OUT"
   done
   git -C /repo worktree remove --force "$WT" >/dev/null 2>&1
-  rm -rf /tmp/wt/mxout-$SID /verif/.build/*$(echo "$WT" | md5sum | cut -c1-8)*
+  rm -rf /tmp/wt/mxout-$SID "$V"/.build/*$(echo "$WT" | md5sum | cut -c1-8)*
 done
 echo DONE >> "$OUT"
